@@ -160,8 +160,10 @@ func (s *c16Sys) Apply(ev int) (string, string, string) {
 	for _, os_ := range old.Servers {
 		for _, ns := range nw.Servers {
 			if os_.Addr == ns.Addr && os_.Cache == ns.Cache {
-				r := s.e.Do(env.Req{Addr: os_.Addr, Host: "a.com", URI: "/seed", Rid: "seed"})
-				if r.Status == 200 {
+				s.e.Do(env.Req{Addr: os_.Addr, Host: "a.com", URI: "/seed", Rid: "seed"})
+				// the key counts as seeded only if it really is cached now (an earlier configuration may have
+				// left a hit-for-pass marker on it, e.g. after an unroutable request)
+				if r := s.e.Do(env.Req{Addr: os_.Addr, Host: "a.com", URI: "/seed", Rid: "seed1"}); r.Status == 200 && r.XStatus == "hit" {
 					seeds = append(seeds, seed{os_.Addr})
 				}
 			}
@@ -256,11 +258,15 @@ func c16Conc(c *Ctx, name string, b vsched.Bounds) Sched {
 		Bounds: b,
 		Setup: func() ([]func(), func(*vsched.Exec) *vsched.Violation, func() string) {
 			if origin == nil {
-				origin = httptest.NewServer(http.HandlerFunc(func(w http.ResponseWriter, r *http.Request) {
+				// no keep-alive: every execution builds new upstream objects (new transports); idle connections
+				// would otherwise pile up until the file-descriptor limit is reached
+				origin = httptest.NewUnstartedServer(http.HandlerFunc(func(w http.ResponseWriter, r *http.Request) {
 					w.Header().Set("Cache-Control", "no-cache")
 					w.Header().Set("Content-Type", "text/plain")
 					fmt.Fprintf(w, "origin|%s|%s", r.Host, r.URL.RequestURI())
 				}))
+				origin.Config.SetKeepAlivesEnabled(false)
+				origin.Start()
 				mk := func(extra bool) *config.PikeConfig {
 					p := &config.PikeConfig{
 						Caches:    []config.CacheConfig{{Name: "c1", Size: 100, HitForPass: "5m"}},
